@@ -559,17 +559,28 @@ def engine_selfcheck(mach, tn, index, tracer, paths, n, seed):
             for i in range(30):
                 s.add(st.regs0[i].t == case['regs'][i])
             s.add(st.o7ffd.t == case['o7ffd'], st.inval.t == case['inval'])
-            arr = z3.K(z3.BitVecSort(poly.W), poly.bvv(0))
-            for a in range(65536):
-                pass
-            cells = {a: v for a, v in enumerate(flat0) if v}
-            for a, v in cells.items():
-                arr = z3.Store(arr, poly.bvv(a), poly.bvv(v))
-            s.add(st.mem.arr0 == arr)
             s.add(st.facts)
             s.add(poly.reveal(st.defs))
             s.add(st.pc)
+            # the initial memory is pinned down cell by cell, only where this path reads it: evaluate the read
+            # addresses in a model, fix those cells to the concrete contents, repeat until no new address appears
+            known = set()
             res = s.check()
+            rounds = 0
+            while res == z3.sat and rounds < 12:
+                rounds += 1
+                m0 = s.model()
+                fresh_cells = []
+                for a_t in st.mem.reads:
+                    av = m0.eval(a_t, model_completion=True).as_long()
+                    if 0 <= av < len(flat0) and av not in known:
+                        known.add(av)
+                        fresh_cells.append(av)
+                if not fresh_cells:
+                    break
+                for av in fresh_cells:
+                    s.add(z3.Select(st.mem.arr0, poly.bvv(av)) == poly.bvv(flat0[av]))
+                res = s.check()
             if res == z3.unknown:
                 inconclusive = True     # solver budget exhausted (busy machine): this sample says nothing
                 continue
